@@ -536,10 +536,13 @@ class Context:
     def witness_model(self):
         """A model of the path condition for cross-validation, preferring generic
         values (non-zero, moderate magnitude) so that the float run is well conditioned."""
-        for extra in (self._nice(nonzero=True), self._nice()):
-            v, m = self.full_model(And.make(extra), 2000)
-            if v == 'sat':
-                return v, m
+        # (only for purely real problems: z3 does not honour the timeout reliably on
+        # mixed integer/real non-linear queries)
+        if all(vsort(self.inputs[nm]) == 'R' for nm in self.input_order):
+            for extra in (self._nice(nonzero=True), self._nice()):
+                v, m = self.full_model(And.make(extra), 2000)
+                if v == 'sat':
+                    return v, m
         return self.full_model(TRUE, self.t_claim)
 
     def _nice(self, nonzero=False):
